@@ -204,14 +204,19 @@ Theorem C16_spawn_error_accounting :
 Proof. exact spawn_error_accounting. Qed.
 Print Assumptions C16_spawn_error_accounting.
 
-(* ---- uv_loop_init: refuted (items 10 and 23) ---------------------------------------------------- *)
-Theorem C16_loop_init_backend_fd_refuted :
-  exists (w : world) (l : ledger),
-    o_res (uv_loop_init false l w) = Ret (RcErr EMFILE) /\
-    l_mem (o_led (uv_loop_init false l w)) = l_mem l /\
-    l_fds (o_led (uv_loop_init false l w)) = l_fds l + 1.
-Proof. exact loop_init_backend_fd_witness. Qed.
-Print Assumptions C16_loop_init_backend_fd_refuted.
+(* ---- uv_loop_init (item 10 repaired in /repo by 9298bc0; item 23 still refuted) ------------------ *)
+(* every return: success; or an error code with the accounting restored and no descriptor left
+   (except the process-wide signal lock pipe created by the very first loop); or abort() in
+   maybe_resize (permitted) or in the process-wide signal initialisation (not permitted) *)
+Theorem C16_loop_init_partial :
+  forall first l w,
+  let o := uv_loop_init first l w in
+  o_res o = Ret RcOk \/
+  (exists s, o_res o = Abort s /\ (s = SMaybeResize \/ (s = SSignalGlobalInit /\ first = true))) \/
+  (exists r, o_res o = Ret r /\ r <> RcOk /\ same_accounting l (o_led o) /\
+     (l_fds (o_led o) = l_fds l \/ (first = true /\ l_fds (o_led o) = l_fds l + 2))).
+Proof. exact loop_init_partial. Qed.
+Print Assumptions C16_loop_init_partial.
 
 Theorem C16_loop_init_abort_refuted :
   exists (w : world) (l : ledger) (s : site),
